@@ -1,6 +1,7 @@
 package mon
 
 import (
+	"errors"
 	"bufio"
 	"encoding/json"
 	"fmt"
@@ -114,6 +115,8 @@ func c03Arm(p *Program) {
 				// stress mode: "background work" keeps a Copy() of the context beyond the request
 				// and touches it while other requests are served from the pooled contexts
 				c.Set("owner", id)
+				ownErr := errors.New("error recorded by " + id)
+				c.AddError(ownErr)
 				cp := c.Copy()
 				bg.Add(1)
 				go func() {
@@ -122,6 +125,9 @@ func c03Arm(p *Program) {
 						cp.Set("bg-step", i)
 						if v, _ := cp.Get("owner"); v != id {
 							rec.Ev("copy-of-context-shows-foreign-data(%v)", v)
+						}
+						if e := cp.FirstError(); e != ownErr {
+							rec.Ev("copy-of-context-shows-foreign-error(%v)", e)
 						}
 						runtime.Gosched()
 					}
